@@ -9,6 +9,7 @@ package props
 // which session, if any, may be reused.
 
 import (
+	"context"
 	"fmt"
 	"sort"
 	"strings"
@@ -20,9 +21,9 @@ import (
 )
 
 var (
-	c07Tags  = []string{"", "T1", "T2"}
-	c07Srvs  = c07Layouts[0]
-	c07Cmds  = []int{5, 6}
+	c07Tags = []string{"", "T1", "T2"}
+	c07Srvs = c07Layouts[0]
+	c07Cmds = []int{5, 6}
 )
 
 // Two server layouts (the check is sequential, Workers: 1): two hosts named by
@@ -135,6 +136,20 @@ func (w *c07World) handshake(tag, srv string, cmd int) {
 			}
 			return [][]byte{f}
 		}
+	}
+	if brk == "stall-cancel" {
+		// the peer takes the request but never answers; the client's context is
+		// cancelled while it waits for the reply (its second connection operation)
+		ctx, cancel := context.WithCancel(context.Background())
+		defer cancel()
+		o.ClientCtx, o.ClientStall, o.Stalled, o.Watchdog = ctx, 2, make(chan struct{}), 20*time.Second
+		go func() {
+			select {
+			case <-o.Stalled:
+				cancel()
+			case <-ctx.Done():
+			}
+		}()
 	}
 	r := hsRun(o)
 	w.res.Transitions++
@@ -263,7 +278,7 @@ func c07Events() []string {
 			}
 		}
 	}
-	return append(ev, "restartA", "restartB", "break-request", "break-reply", "adv1860", "adv3660", "invalidate-last", "sweep")
+	return append(ev, "restartA", "restartB", "break-request", "break-reply", "break-stall", "adv1860", "adv3660", "invalidate-last", "sweep")
 }
 
 func (w *c07World) apply(ev string) bool {
@@ -294,6 +309,12 @@ func (w *c07World) apply(ev string) bool {
 			}
 		}
 		return any
+	case ev == "break-stall":
+		if w.brk != "" || len(w.sess) == 0 {
+			return false
+		}
+		w.brk = "stall-cancel"
+		return true
 	case ev == "break-request" || ev == "break-reply":
 		if w.brk != "" || len(w.sess) == 0 {
 			return false
@@ -415,7 +436,7 @@ func c07BFS(depth, maxSessions, layout int, res *vlib.Result) {
 func C07Plan() *vlib.Plan {
 	p := &vlib.Plan{
 		Property: "C07", Level: "model_checking", Workers: 1,
-		Rule:   "E-BFS over client-side histories: 12 handshake events (tag in {'',T1,T2} x server in {A,B} x command in {5,6}; A declares ValidCommands {5}, B {5,6}) + restart A/B (server forgets), break the next resumption exchange (request lost / reply lost), advance virtual time (lease+60, duration+60), invalidate the newest session, sweep expired. Histories are replayed on a fresh client cache against two real servers, in two layouts: two hosts (cache keyed by the connection's peer address) and two daemons behind one shared port whose sinful strings differ only in sock= (cache keyed by the PeerName the client dials); canonical state = multiset of (tag, server, ValidCommands, status, server-knows) + pending break. Oracle: reference map (tag, address, command) -> sessions that may be reused; the request the server receives (parsed off the wire) must name only an allowed session; after a failed resumption the session and every route to it are gone; after every event every route in the real cache must be allowed by the reference. Only safety is demanded (not resuming is never a violation).",
+		Rule:   "E-BFS over client-side histories: 12 handshake events (tag in {'',T1,T2} x server in {A,B} x command in {5,6}; A declares ValidCommands {5}, B {5,6}) + restart A/B (server forgets), break the next resumption exchange (request lost / reply lost / peer silent until the client's context is cancelled), advance virtual time (lease+60, duration+60), invalidate the newest session, sweep expired. Histories are replayed on a fresh client cache against two real servers, in two layouts: two hosts (cache keyed by the connection's peer address) and two daemons behind one shared port whose sinful strings differ only in sock= (cache keyed by the PeerName the client dials); canonical state = multiset of (tag, server, ValidCommands, status, server-knows) + pending break. Oracle: reference map (tag, address, command) -> sessions that may be reused; the request the server receives (parsed off the wire) must name only an allowed session; after a failed resumption the session and every route to it are gone; after every event every route in the real cache must be allowed by the reference. Only safety is demanded (not resuming is never a violation).",
 		Assume: []string{"virtual time by re-storing entries with shifted expirations; judgements within 30 s of an expiry are skipped", "sequential, one process (server cache is process-global)"},
 	}
 	p.Gen = func(tier string, yield func(vlib.Case)) {
